@@ -132,6 +132,11 @@ func routesFor(sc *Scn) string {
 		return `[{"match":[{"h_need":{"id":"abc","k":3,"pat":"abc"}}],"handle":[{"handler":"h_timed"}]}]`
 	case "needbig":
 		return fmt.Sprintf(`[{"match":[{"h_need":{"id":"big","k":%d}}],"handle":[{"handler":"h_timed"}]}]`, limit+5000)
+	case "httpbig":
+		// the shipped http matcher inside a subroute that is followed by another handler: a request
+		// line followed by a header block that never ends can only end matching by buffer
+		// exhaustion, after which neither the route's handler nor the one behind the subroute runs
+		return `[{"match":[{"h_need":{"id":"one","k":1}}],"handle":[{"handler":"subroute","matching_timeout":` + T + `,"routes":[{"match":[{"http":[{}]}],"handle":[{"handler":"h_timed"}]}]},{"handler":"h_timed"}]}]`
 	case "eatbig":
 		// a first route is decided on three buffered chunks and its non-terminal handler
 		// consumes two of them; the next route can never be decided within the limit
@@ -225,6 +230,27 @@ func execute(x *explore.Exec, sc *Scn) *result {
 					for sent := 0; sent < limit+3*chunk; sent += chunk {
 						if _, err := cl.Write(blk); err != nil {
 							return
+						}
+					}
+				case "httpflood":
+					// Delta selects the shape of the endless header block
+					head, line := "GET /x HTTP/1.1\r\nHost: a.test\r\nX-Fill: ", strings.Repeat("a", 64)
+					switch sc.Delta {
+					case 1:
+						line = "\r\nX-Line: " + strings.Repeat("b", 53)
+					case 2:
+						head, line = "GET /x HTTP/1.1\nHost: a.test\nX-Fill: a", "\nX-Line: "+strings.Repeat("c", 54)
+					}
+					blk := []byte(head)
+					for len(blk) < chunk {
+						blk = append(blk, line...)
+					}
+					for sent := 0; sent < limit+3*chunk; sent += len(blk) {
+						if _, err := cl.Write(blk); err != nil {
+							return
+						}
+						if blk[0] == 'G' {
+							blk = []byte(strings.Repeat(line, len(blk)/len(line)))
 						}
 					}
 				case "late":
@@ -321,6 +347,9 @@ func check(x *explore.Exec, sc *Scn, r *result) {
 	if abortAt < 0 && sc.Routes == "sub" {
 		abortAt, abortErr = endAt, "(subroute: timeout assumed)"
 	}
+	if abortAt < 0 && sc.Routes == "httpbig" {
+		abortAt, abortErr = endAt, "(subroute: logged by its own logger)"
+	}
 	const eps = 1000 // the virtual clock lands 1 ns past each timer; allow 1 us
 	handlerStarted := false
 	var handlerAt int64
@@ -384,7 +413,7 @@ func check(x *explore.Exec, sc *Scn, r *result) {
 		if abortAt < 0 {
 			x.Fail("matching-never-ended", "matching did not end although a matcher failed; %s", desc())
 		}
-	case "needbig", "eatbig":
+	case "needbig", "eatbig", "httpbig":
 		if handlerStarted {
 			x.Fail("handler-after-buffer-full", "a handler ran although matching needs more than the buffer limit; %s", desc())
 		}
@@ -459,7 +488,7 @@ func scenarios(tier string, yield func(any) bool) {
 	for _, proto := range []string{"tcp", "udp"} {
 		for _, T := range timeouts {
 			for _, ph := range phases {
-				for _, routes := range []string{"undecided", "und2", "errset", "h2", "nonterm", "sub", "decide", "needbig", "eatbig"} {
+				for _, routes := range []string{"undecided", "und2", "errset", "h2", "nonterm", "sub", "decide", "needbig", "eatbig", "httpbig"} {
 					var clients []string
 					switch routes {
 					case "undecided":
@@ -476,14 +505,22 @@ func scenarios(tier string, yield func(any) bool) {
 						clients = []string{"late"}
 					case "needbig", "eatbig":
 						clients = []string{"flood"}
+					case "httpbig":
+						clients = []string{"httpflood"}
 					}
 					for _, cl := range clients {
-						if proto == "udp" && (cl == "eof" || cl == "flood") {
+						if proto == "udp" && (cl == "eof" || cl == "flood" || cl == "httpflood") {
 							continue
 						}
 						ds := []int{0}
 						if cl == "trickle" {
 							ds = deltas
+						}
+						if cl == "httpflood" {
+							if ph != 0 {
+								continue
+							}
+							ds = []int{0, 1, 2}
 						}
 						if cl == "h2split" {
 							if proto == "udp" || ph != 0 {
